@@ -5,6 +5,7 @@ import (
 	"context"
 	"encoding/json"
 	"fmt"
+	"github.com/cosmos/cosmos-sdk/types/query"
 	"os"
 	"sort"
 	"strings"
@@ -31,7 +32,7 @@ import (
 const c14Sentinel = "[do-not-modify]"
 
 type c14Op struct {
-	Kind  string `json:"kind"` // issue | mint | edit | transfer | burn | xferdenom | reimport
+	Kind  string `json:"kind"` // issue | mint | edit | transfer | burn | xferdenom | reimport | burst
 	Who   int    `json:"who"`
 	To    int    `json:"to,omitempty"`
 	Denom string `json:"denom"`
@@ -46,6 +47,8 @@ type c14Op struct {
 	Schema string `json:"schema,omitempty"`
 	Symbol string `json:"symbol,omitempty"`
 	Desc   string `json:"desc,omitempty"`
+	// burst only: number of tokens minted into the class (ids <ID>000, <ID>001, ...)
+	N int `json:"n,omitempty"`
 }
 
 type c14Class struct {
@@ -74,7 +77,9 @@ type c14Machine struct {
 
 	// genesis round trips (restart of the module from its own export)
 	nReimport, nReimportMultiClass, nReimportRestricted, nReimportHanded, nReimportMoved, nReimportBurned int
-	sinceReimport                                                                                         int // messages since the last round trip (-1 = none yet)
+	nBurst, nReimportAfterBurst                                                                           int
+	quiet                                                                                                 bool // inside a burst: per-step clauses are evaluated at its end
+	sinceReimport                                                                                         int  // messages since the last round trip (-1 = none yet)
 	nAcceptedAfterReimport, nStrangerAfterReimport, nRestrictedAfterReimport                              int
 	nRemintAfterReimport, nCreatorActsAfterReimport                                                       int
 	skipped                                                                                               map[string]int
@@ -288,10 +293,24 @@ func (m *c14Machine) Next(t *rapid.T) c14Op {
 		if holding >= 2 && m.nReimportMultiClass == 0 {
 			odds = 8
 		}
+		if m.nBurst > 0 && m.nReimportAfterBurst == 0 {
+			odds = 5
+		}
 		// (rapid draws small values far more often than large ones; the remainder of a large draw is close to uniform)
 		if rapid.IntRange(0, 1<<20).Draw(t, "reimport")%odds == odds-1 {
 			return c14Op{Kind: "reimport"}
 		}
+	}
+	if len(m.classes) > 0 && m.nBurst == 0 && rapid.IntRange(0, 1<<20).Draw(t, "burst")%150 == 149 {
+		// one class grows beyond a hundred tokens (minted by whoever may mint into it)
+		d := m.drawClass(t, true)
+		who := rapid.IntRange(0, len(m.c.E.Users)-1).Draw(t, "burstwho")
+		if cl := m.classes[d]; cl != nil && cl.mintR {
+			who = m.userOf(cl.creator)
+		}
+		return c14Op{Kind: "burst", Who: who, To: rapid.IntRange(0, len(m.c.E.Users)-1).Draw(t, "burstto"), Denom: d,
+			ID: rapid.SampledFrom([]string{"bulk", "tok", "zz"}).Draw(t, "burstid"), N: rapid.IntRange(101, 130).Draw(t, "burstn"),
+			Name: "n", URI: "u", Hash: "h", Data: ""}
 	}
 	k := rapid.IntRange(0, 99).Draw(t, "kind")
 	if len(m.classes) == 0 && k >= 20 {
@@ -417,6 +436,28 @@ func (m *c14Machine) Next(t *rapid.T) c14Op {
 func (m *c14Machine) Apply(op c14Op) error {
 	if op.Kind == "reimport" {
 		return m.applyReimport()
+	}
+	if op.Kind == "burst" {
+		// more tokens in one class than a default query page holds (100): every mint goes through the ordinary rules,
+		// the listing and supply clauses are evaluated once at the end
+		if op.N < 1 || op.N > 400 {
+			return fmt.Errorf("bad replay op %+v", op)
+		}
+		m.quiet = true
+		for i := 0; i < op.N; i++ {
+			one := op
+			one.Kind, one.ID, one.N = "mint", fmt.Sprintf("%s%03d", op.ID, i), 0
+			if i%2 == 1 {
+				one.To = op.Who
+			}
+			if err := m.Apply(one); err != nil {
+				m.quiet = false
+				return err
+			}
+		}
+		m.quiet = false
+		m.nBurst++
+		return m.check()
 	}
 	if op.Who < 0 || op.Who >= len(m.c.E.Users) || op.To < 0 || op.To >= len(m.c.E.Users) {
 		return fmt.Errorf("bad replay op %+v", op)
@@ -677,6 +718,9 @@ func (m *c14Machine) Apply(op c14Op) error {
 	if m.sinceReimport >= 0 {
 		m.sinceReimport++
 	}
+	if m.quiet {
+		return nil
+	}
 	return m.check()
 }
 
@@ -700,6 +744,9 @@ func (m *c14Machine) exportJSON() json.RawMessage {
 func (m *c14Machine) applyReimport() error {
 	holding, restricted, handed, moved, burned, overlong := 0, false, false, false, false, ""
 	for d, ts := range m.toks {
+		if len(ts) > 100 {
+			m.nReimportAfterBurst++
+		}
 		if len(ts) > 0 {
 			holding++
 			restricted = restricted || m.classes[d].mintR || m.classes[d].updR
@@ -786,6 +833,14 @@ func (m *c14Machine) check() error {
 		if err != nil {
 			return pbt.Failf("C14/collection-query", "collection %s: %v", d, err)
 		}
+		// a class may hold more tokens than one page: follow the pages (default limit) to the end
+		for page := cres; page.Pagination != nil && len(page.Pagination.NextKey) > 0; {
+			page, err = k.Collection(ctx, &nfttypes.QueryCollectionRequest{DenomId: d, Pagination: &query.PageRequest{Key: page.Pagination.NextKey}})
+			if err != nil {
+				return pbt.Failf("C14/collection-query", "collection %s, next page: %v", d, err)
+			}
+			cres.Collection.NFTs = append(cres.Collection.NFTs, page.Collection.NFTs...)
+		}
 		if cres.Collection.Denom != want {
 			return pbt.Failf("C14/class-record", "collection %s carries class %+v, model %+v", d, cres.Collection.Denom, want)
 		}
@@ -807,7 +862,18 @@ func (m *c14Machine) check() error {
 			}
 		}
 		// single-token queries, existing and not
-		for _, id := range append(append([]string{}, c14TokenIDs...), c14OddTokenIDs...) {
+		ids := append(append([]string{}, c14TokenIDs...), c14OddTokenIDs...)
+		for id := range toks { // and every other token the model holds (burst ids)
+			known := false
+			for _, x := range ids {
+				known = known || x == id
+			}
+			if !known {
+				ids = append(ids, id)
+			}
+		}
+		sort.Strings(ids)
+		for _, id := range ids {
 			tk := toks[id]
 			nres, err := k.NFT(ctx, &nfttypes.QueryNFTRequest{DenomId: d, TokenId: id})
 			if tk == nil {
@@ -848,16 +914,28 @@ func (m *c14Machine) check() error {
 	// owner index
 	for i := range m.c.E.Users {
 		a := m.addr(i)
-		ores, err := k.NFTsOfOwner(ctx, &nfttypes.QueryNFTsOfOwnerRequest{Owner: a})
-		if err != nil {
-			return pbt.Failf("C14/owner-query", "NFTsOfOwner(U%d): %v", i, err)
-		}
 		got := map[string][]string{}
-		for _, idc := range ores.Owner.IDCollections {
-			if _, dup := got[idc.DenomId]; dup {
-				return pbt.Failf("C14/owner-index", "NFTsOfOwner(U%d) lists class %s twice", i, idc.DenomId)
+		var next []byte
+		for pageNo := 0; ; pageNo++ {
+			ores, err := k.NFTsOfOwner(ctx, &nfttypes.QueryNFTsOfOwnerRequest{Owner: a, Pagination: &query.PageRequest{Key: next}})
+			if err != nil {
+				return pbt.Failf("C14/owner-query", "NFTsOfOwner(U%d): %v", i, err)
 			}
-			got[idc.DenomId] = append([]string{}, idc.TokenIds...)
+			inPage := map[string]bool{}
+			for _, idc := range ores.Owner.IDCollections {
+				if inPage[idc.DenomId] {
+					return pbt.Failf("C14/owner-index", "NFTsOfOwner(U%d) lists class %s twice", i, idc.DenomId)
+				}
+				inPage[idc.DenomId] = true
+				got[idc.DenomId] = append(got[idc.DenomId], idc.TokenIds...) // a class may continue on the next page
+			}
+			if ores.Pagination == nil || len(ores.Pagination.NextKey) == 0 {
+				break
+			}
+			next = ores.Pagination.NextKey
+			if pageNo > 50 {
+				return pbt.Failf("C14/owner-query", "NFTsOfOwner(U%d) does not end after 50 pages", i)
+			}
 		}
 		want := perOwner[a]
 		if len(got) != len(want) {
@@ -901,6 +979,8 @@ func (m *c14Machine) Classify() (bool, []string) {
 			cl = append(cl, name)
 		}
 	}
+	add(m.nBurst > 0, "class-with->100-tokens")
+	add(m.nReimportAfterBurst > 0, "restart-with-a-class-of->100-tokens")
 	add(m.nBurnRemint > 0, "burn-then-remint")
 	add(m.nHandoverMint > 0, "handover-then-mint")
 	add(m.nRestrictedEdit > 0, "restricted-class-edit-attempt")
